@@ -14,7 +14,7 @@ for d in "$V"/seeded/C*; do
     fi
   fi
   mkdir -p "$D/.verif"; cp "$V/known_findings.txt" "$D/.verif/"; cp -r "$V/testdata" "$D/.verif/"
-  "$V/bin/vcheck" -p $id -repo "$D" -verif "$D/.verif" > "$D/.out" 2>&1; r=$?
+  "${VCHECK:-$V/bin/vcheck}" -p $id -repo "$D" -verif "$D/.verif" > "$D/.out" 2>&1; r=$?
   echo "$slot exit=$r $(grep -cE '^  (VIOLATED|UNDECIDED)' "$D/.out") alarms: $(grep -E '^  (VIOLATED|UNDECIDED)' "$D/.out" | awk '{print $2":"$3}' | sort -u | head -4 | tr '\n' ' ')"
   rm -rf "$D"
 done
